@@ -60,9 +60,40 @@ def candles(n, seed=0, kind='random'):
     return np.array(rows)
 
 
+SECOND_SERIES = {'beta': 'benchmark_candles', 'rsmk': 'candles_compare'}
+
+
+def second_series(c, extra=0):
+    """a second candle series on the same minutes as c (each row a function of the row of c, so prefixes correspond), with `extra`
+    older minutes in front - the compared symbol may carry more history, both series end at the same minute"""
+    c = np.asarray(c, dtype=float)
+    n = len(c)
+    out = c.copy()
+    out[:, 1:5] = c[:, 1:5] * (0.5 * (1 + 0.05 * np.sin((c[:, 0] - TS0) / 60000 * 0.7)))[:, None]
+    if extra and n:
+        p = out[0, 1]
+        pre = np.array([[c[0, 0] - (extra - j) * 60000, p * (1 + 0.01 * np.sin(j)), p * (1 + 0.01 * np.sin(j + 1)), p * 1.02, p * 0.98, 5.0]
+                        for j in range(extra)])
+        out = np.vstack([pre, out])
+    return out
+
+
 def get(name):
     import jesse.indicators as ta
-    return getattr(ta, name)
+    f0 = getattr(ta, name)
+    if name in SECOND_SERIES:
+        import functools
+
+        @functools.wraps(f0)
+        def f(c, *a, **k):
+            # series mode and short inputs: the same minutes; single-value mode on more than the 240-candle window: the compared
+            # series is longer and ends at the same minute
+            return f0(c, second_series(c, 37 if (not k.get('sequential') and len(c) > 240) else 0), *a, **k)
+        import inspect
+        sig = inspect.signature(f0)
+        f.__signature__ = sig.replace(parameters=[v for kk, v in sig.parameters.items() if kk != SECOND_SERIES[name]])
+        return f
+    return f0
 
 
 def fields(v):
